@@ -277,10 +277,20 @@ def bitLen (x : Nat) : Nat := if x = 0 then 0 else Nat.log2 x + 1
 /-- `leading_zeros` of an `n`-limb value (value level, C05). -/
 def leadingZeros (n x : Nat) : Nat := 64 * n - bitLen x
 
-/-- `Uint::MAX.rem(modulus).wrapping_add(&Uint::ONE)` — the remainder at value level, the addition as the
-    limb chain. -/
+/-- `Uint::MAX.rem(modulus).add_mod(&Uint::ONE, modulus)` (fixed widths and `impl_modulus!`; since fix commit
+    b15470f — before it the sum was a plain `wrapping_add`, see `CB/Lemmas/C08Old.lean`): the remainder at value
+    level (C02), `add_mod` as the limb chain. -/
 def oneOf (ms : List Nat) : List Nat :=
-  wrappingAdd (toLimbs ms.length ((B ^ ms.length - 1) % val ms)) (uone ms.length)
+  addMod (toLimbs ms.length ((B ^ ms.length - 1) % val ms)) (uone ms.length) ms
+
+/-- `BoxedUint::conditional_sbb_assign(rhs, choice)`: `self[i].sbb(rhs[i] & mask, borrow)`; the new value. -/
+def conditionalSbb (a rhs : List Nat) (mask : Nat) : List Nat := (usbb a (bitandLimb rhs mask) 0).1
+
+/-- boxed constructors: `one = max.rem(modulus).wrapping_add(&one()); one.conditional_sbb_assign(&modulus,
+    !one.ct_lt(&modulus))` (the comparison at value level, C06). -/
+def oneOfBoxed (ms : List Nat) : List Nat :=
+  let o := wrappingAdd (toLimbs ms.length ((B ^ ms.length - 1) % val ms)) (uone ms.length)
+  conditionalSbb o ms (if val o < val ms then 0 else WMAX)
 
 /-- `one.square().rem(modulus ‖ 0).split().0` / `rem_wide_vartime(one.square_wide(), modulus)`. -/
 def r2Of (ms one : List Nat) : List Nat := toLimbs ms.length ((val one * val one) % val ms)
@@ -291,41 +301,50 @@ def negInvOf (ms : List Nat) : Nat := wsub 0 (inv64 (ms.headD 0))
 /-- `montgomery_reduction(&r2.square_wide(), &modulus, mod_neg_inv)`. -/
 def r3Of (ms r2 : List Nat) (k : Nat) : List Nat := squareMont r2 ms k
 
-/-- `MontyParams::new` (constant time): clamp `from_u32_lt(z, BITS - 1).select_u32(BITS - 1, z)`. -/
-def paramsNew (ms : List Nat) : Params :=
-  let one := oneOf ms
+/-- `MontyParams::new` (constant time) after its first statement (`one` given): clamp
+    `from_u32_lt(z, BITS - 1).select_u32(BITS - 1, z)`. -/
+def paramsNewWith (one ms : List Nat) : Params :=
   let r2 := r2Of ms one
   let k := negInvOf ms
   let z := leadingZeros ms.length (val ms)
   let z := if z < 63 then z else 63
   { modulus := ms, one := one, r2 := r2, r3 := r3Of ms r2 k, modNegInv := k, modLeadingZeros := z }
 
-/-- `MontyParams::new_vartime`: clamp `if z < BITS - 1 { z } else { BITS - 1 }`. -/
-def paramsNewVartime (ms : List Nat) : Params :=
-  let one := oneOf ms
+/-- `MontyParams::new`. -/
+def paramsNew (ms : List Nat) : Params := paramsNewWith (oneOf ms) ms
+
+/-- `MontyParams::new_vartime` after `one`: clamp `if z < BITS - 1 { z } else { BITS - 1 }`. -/
+def paramsNewVartimeWith (one ms : List Nat) : Params :=
   let r2 := r2Of ms one
   let k := negInvOf ms
   let z := leadingZeros ms.length (val ms)
   let z := if z < 63 then z else 63
   { modulus := ms, one := one, r2 := r2, r3 := r3Of ms r2 k, modNegInv := k, modLeadingZeros := z }
 
-/-- `impl_modulus!`: clamp `if z >= Word::BITS { Word::BITS - 1 } else { z }`. -/
-def paramsConst (ms : List Nat) : Params :=
-  let one := oneOf ms
+/-- `MontyParams::new_vartime`. -/
+def paramsNewVartime (ms : List Nat) : Params := paramsNewVartimeWith (oneOf ms) ms
+
+/-- `impl_modulus!` after `ONE`: clamp `if z >= Word::BITS { Word::BITS - 1 } else { z }`. -/
+def paramsConstWith (one ms : List Nat) : Params :=
   let r2 := r2Of ms one
   let k := negInvOf ms
   let z := leadingZeros ms.length (val ms)
   let z := if z ≥ 64 then 63 else z
   { modulus := ms, one := one, r2 := r2, r3 := r3Of ms r2 k, modNegInv := k, modLeadingZeros := z }
 
-/-- `BoxedMontyParams::new` / `new_vartime`: `one` by the padded `wrapping_add(&BoxedUint::one())`,
-    `r3 = BoxedMontyMultiplier::square(&r2)`, clamp `.min(Word::BITS - 1)`. -/
-def paramsBoxed (ms : List Nat) : Params :=
-  let one := oneOf ms
+/-- `impl_modulus!`. -/
+def paramsConst (ms : List Nat) : Params := paramsConstWith (oneOf ms) ms
+
+/-- `BoxedMontyParams::new` / `new_vartime` after `one`: `r3 = BoxedMontyMultiplier::square(&r2)`, clamp
+    `.min(Word::BITS - 1)`. -/
+def paramsBoxedWith (one ms : List Nat) : Params :=
   let r2 := r2Of ms one
   let k := negInvOf ms
   let z := Nat.min (leadingZeros ms.length (val ms)) 63
   { modulus := ms, one := one, r2 := r2, r3 := bSquare r2 ms k, modNegInv := k, modLeadingZeros := z }
+
+/-- `BoxedMontyParams::new` / `new_vartime`. -/
+def paramsBoxed (ms : List Nat) : Params := paramsBoxedWith (oneOfBoxed ms) ms
 
 /-- the constants by definition: `R mod m`, `R² mod m`, `R³ mod m`, `−m⁻¹ mod 2^64`, `min(lz, 63)`. -/
 def paramsSpec (n m : Nat) : Params :=
